@@ -57,6 +57,9 @@ def custom_vocab(rng, unknown_ok=None, n_macros=12, n_envs=5, full_cover_index=N
     # ... and as the attribute part of a context-extending delta (which also declares a macro for the body)
     envs['mathenvx'] = D.M('', math=True, extend=True)
     macros['txtc'] = D.M('{', ['text'], chained=True)
+    # mode changes made by a spec *subclass* overriding make_arguments_parsing_state_delta() (all arguments of the call)
+    macros['txts'] = D.M('{', ['text'], subclass=True)
+    macros['mths'] = D.M('{{', ['math', 'math'], subclass=True)
     macros['mthc'] = D.M('{{', ['math', None], chained=True)
     macros['sym'] = D.M('')
     macros['symb'] = D.M('')
@@ -121,7 +124,14 @@ def custom_vocab(rng, unknown_ok=None, n_macros=12, n_envs=5, full_cover_index=N
             from pylatexenc.macrospec import MacroStandardArgsParser
             amm = [{'text': False, 'math': True, None: None}[m] for m in d['mode']]
             return MacroSpec(n, args_parser=MacroStandardArgsParser(''.join(d['sig']), args_math_mode=amm))
-        ms = [legacy_spec(n, d) if d.get('legacy') else
+        def subclass_spec(n, d):
+            delta_cls = ParsingStateDeltaLeaveMathMode if d['mode'][0] == 'text' else ParsingStateDeltaEnterMathMode
+
+            class _ArgsModeMacroSpec(MacroSpec):
+                def make_arguments_parsing_state_delta(self, token, latex_walker):
+                    return delta_cls()
+            return _ArgsModeMacroSpec(n, [LatexArgumentSpec(k) for k in d['sig']])
+        ms = [subclass_spec(n, d) if d.get('subclass') else legacy_spec(n, d) if d.get('legacy') else
               MacroSpec(n, argspecs(d), **({'make_after_parsing_state_delta': after_delta} if n == 'aft' else {}))
               for n, d in sorted(macros.items())]
         es = []
